@@ -59,7 +59,7 @@ class Gen:
         r = self.r
         if kind == 'msg-timed':
             ty = r.choice(self.timed)
-            return fe(ty, self.stamp(ty, r.choice([0, 1, 12, 1000, 86400 * 7, r.randrange(1 << 31), 0xFFFFFFFD]), r.choice([0, 1, 500000000, 999999999, r.randrange(10 ** 9)])),
+            return fe(ty, self.stamp(ty, r.choice([0, 1, 12, 1000, 86400 * 7, (1 << 24) + 1, 1300000000, r.randrange(1 << 31), 0xFFFFFFFD]), r.choice([0, 1, 500000000, 999999999, 999999940, r.randrange(10 ** 9)])),
                       self.nseq(), r.choice([0, 0, 1, 7]))
         if kind == 'msg-invalidstamp':
             ty = r.choice(self.timed)
@@ -74,6 +74,9 @@ class Gen:
             return fe(ty, bytes.fromhex(self.t[str(ty)]['payload']), self.nseq(), r.choice([0, 3]))
         if kind == 'msg-unknown':
             return fe(r.choice([1, 2, 9999, 20000, 60001, 65535]), self.rb(r.choice([0, 1, 5, 40, 300])), self.nseq())
+        if kind == 'msg-large':      # > 1 KiB, >= 4 KiB, and the largest the block indexer guarantees (16384 bytes in all) and one less
+            n = r.choice([1500, 4096, 16384 - 24, 16383 - 24])
+            return fe(r.choice([60006, 13120]), bytes((i * 31 + n) & 0xFF for i in range(n)), self.nseq())
         if kind == 'msg-type0':
             return fe(0, self.rb(r.choice([0, 3, 17])), self.nseq())
         if kind == 'msg-empty':
@@ -168,7 +171,7 @@ MSG_KINDS = ['msg-timed', 'msg-invalidstamp', 'msg-untimed', 'msg-unknown', 'msg
              'msg-shortpayload', 'msg-sync-in-payload', 'wrapper', 'msg-bigstamp']
 NOISE_KINDS = ['junk', 'junk-sync', 'junk-sync-run', 'rtcm', 'false-header-huge', 'false-header-large', 'false-header-pastend',
                'corrupt-payload', 'corrupt-crc', 'corrupt-sync', 'corrupt-nested', 'truncated', 'truncated-nested']
-ALL_KINDS = MSG_KINDS + NOISE_KINDS + ['false-header-max']
+ALL_KINDS = MSG_KINDS + NOISE_KINDS + ['false-header-max', 'msg-large']
 
 
 def make_cases(ctx, templates):
@@ -186,11 +189,25 @@ def make_cases(ctx, templates):
         add(['msg-unknown', k])
     for k in NOISE_KINDS:                                # message-free files
         add([k, r.choice(NOISE_KINDS)])
+    for _ in range(4):                                   # large messages (1.5 KiB ... 16384 bytes in all), alone and between others
+        add(['msg-large'])
+    add(['msg-timed', 'msg-large', 'junk-sync', 'msg-large', 'msg-untimed'])
+    add(['truncated', 'msg-large'])
     add(['false-header-max'])                            # a header claiming exactly _MAX_EXPECTED_SIZE_BYTES (slow in the model: unary size)
     add(['msg-timed', 'false-header-max', 'msg-untimed'])
     add(['msg-timed'] * 12)
     add(['msg-timed', 'msg-type0'])                      # last message of type 0: the saved index has no EOF marker
     add(['msg-type0', 'msg-timed'])
+    # inputs that span more than one 80 KiB indexer block (~1 KiB messages back to back, messages across the boundary)
+    for _ in range(3 if ctx.thorough else 1):
+        big, size, i = [], 0, 0
+        while size < 81920 + 9000:
+            m = g.piece('msg-timed') if i % 7 == 3 else fe(60030 + i % 2, bytes((i * 5 + j) & 0xFF for j in range(800 + (i * 97) % 500)), 5000 + i)
+            big.append(['msg-timed' if i % 7 == 3 else 'msg-unknown', m.hex()])
+            size += len(m); i += 1
+            if i % 30 == 0:
+                big.append(['junk', b'\x00.1junk'.hex()]); size += 8
+        cases.append(big)
     n = 1500 if ctx.thorough else 150
     for _ in range(n):
         k = r.choice([1, 2, 3, 4, 6, 9])
@@ -540,6 +557,9 @@ def run(ctx):
                          'numpy: list -> structured array, astype to the raw dtype, tofile/fromfile (modelled: u4/u2/u8 little-endian records)',
                          'hand transcription of extract_fusion_engine_log / FileIndexBuilder / FileIndex.save / MixedLogReader._read_next control flow, held by correspondence',
                          'translators/gen_fe.py, translators/gen_c09.py (constants, record layout)', 'harness/py/c18_impl.py, generator in props/c18.py']
+    ctx.notes.append('checklist audit: the written .p1i is loaded through FileIndex(index, data) and must be accepted with the written entries; P1 seconds 2^24+1, 1.3e9, random < 2^31, fractions 999999940 / 999999999 ns; '
+                     'unknown and reserved-range types incl. return_counts keys; messages of 1.5 KiB, 4 KiB, 16383 and 16384 bytes; an input spanning two 80 KiB indexer blocks; warn_on_gaps=False; relative paths with another current directory; '
+                     'pre-existing outputs; input bit-identical afterwards. Not required: creating a missing output directory (the property text does not say so; the code raises FileNotFoundError); extraction of a file onto itself is excluded.')
     ctx.assumptions += ['the output path is passed explicitly and differs from the input path (with the default output path a *.p1log input is opened for reading and truncating writing at once: outside the statement)',
                         'no stale <input>.p1i lies next to the input (the reader would consult it: C09)',
                         'every accepted message is <= 16 KiB (precondition of C08 for the block indexer); model run time limits generated files to a few KiB',
